@@ -438,12 +438,20 @@ pub fn c13(ctx: &Ctx) -> i32 {
     let mut out = run_book_spec(ctx, &spec);
     let mout = run_market_spec(ctx, "c13", MK_FLAG, &[0, 1, 2, 3, 4, 5], ctx.tier.pick(12_000, 240_000), 150);
     let espec = EnvSpec { check: "c13", flags: E_FLAG | E_STEP, env_types: all_types(), sessions: ctx.tier.pick(12_000, 300_000), max_steps: 25, toggle_rate: 0.25, offgrid_rate: 0.0 };
-    let eout = run_env_spec(ctx, &espec);
+    let mut eout = run_env_spec(ctx, &espec);
+    // the same judgements on steps that carry more instructions than the step has time units
+    let ospec = EnvSpec { check: "c13", flags: E_FLAG | E_OVERFULL, env_types: all_types(), sessions: ctx.tier.pick(4000, 80_000), max_steps: 20, toggle_rate: 0.25, offgrid_rate: 0.0 };
+    let oout = run_env_spec(ctx, &ospec);
+    let overfull_disabled_steps = oout.census.steps_while_disabled;
+    eout.violations.extend(oout.violations);
+    eout.inconclusive.extend(oout.inconclusive);
+    eout.census.merge(&oout.census);
     let c = &out.census;
     let mut violations = std::mem::take(&mut out.violations);
     violations.extend(mout.violations);
     violations.extend(eout.violations);
     let mut inconclusive = floors(&[
+        ("overfull_steps_while_disabled", overfull_disabled_steps, 200),
         ("ops_while_disabled", c.ops_while_disabled, 1000),
         ("market_rejected", c.market_rejected, 100),
         ("trades_after_reenable", c.trades_after_reenable, 100),
